@@ -64,6 +64,14 @@ func main() {
 		os.Exit(runCheck(prop, *tier, *jobs, *only, *verbose, !*noEvidence))
 	case "replay":
 		os.Exit(runReplay(os.Args[2]))
+	case "ssa":
+		P, err := loadProgram()
+		if err != nil {
+			fmt.Fprintln(os.Stderr, err)
+			os.Exit(2)
+		}
+		fn := P.pkgs[os.Args[2]].Func(os.Args[3])
+		fn.WriteTo(os.Stdout)
 	case "list":
 		for _, p := range allProps() {
 			fmt.Println(p)
